@@ -8,7 +8,7 @@ mirror `Api/Pipeline.lean` (`runCall`) under a fault parameter, the handle's poi
 init <rb 0|1> <maxlog>                       ok
 begin / read / dread / prove / finish / overlay / odrop / sdrop / fdrop / root / seqn / witness   as in `api` (on the in-memory state)
 pwork <labels,|->                            ok <n> | bad-label <l> | bad-order        the labels of a fault-free run: sets the I/O work, checks the order
-pcall <commit|trycommit|ocommit|otrycommit|rollback> <id|n> <label:once|label:pers|-> [rblock=busy] [finish=fail]
+pcall <commit|trycommit|ocommit|otrycommit|rollback> <id|n> <label:once|label:pers|-> [rblock=busy] [finish=fail] [seq=<s:step|io:label,…>]
                                              <ok|err|busy> why=<…> poisoned=<0|1> root=<hex> seqn=<n> loglen=<n>
 preopen                                      <root> <seqn> loglen=<n> | corrupt          drop the handle, open the directory again
 pimages                                      the states a power loss could leave: `<root>/<seqn>` list
@@ -89,9 +89,30 @@ def pipelineStep (d : PDrv) (line : String) : PDrv × String :=
   | "pcall" :: kind :: arg :: fault :: opts =>
     match parsePCall kind arg, parsePFault fault with
     | some c, some F =>
-      let E : Env := { F := F, W := d.work, rbLockFree := !(opts.contains "rblock=busy"), finishOk := !(opts.contains "finish=fail") }
+      -- `seq=<items>`: the real order of the steps (hook H14) and I/O events of this call
+      let seqItems : Option (List String) := (opts.find? (·.startsWith "seq=")).map (fun o => optList (o.drop 4).toString ",")
+      -- a fault-free call brings its own work: the labels of its own I/O events
+      let ownIos : Option (List Io) :=
+        if fault == "-" then
+          seqItems.bind (fun items => (items.filter (·.startsWith "io:")).mapM (fun (it : String) => ioOfLabel (it.drop 3).toString))
+        else none
+      let W := match ownIos with | some ios => workOf ios | none => d.work
+      let E : Env := { F := F, W := W, rbLockFree := !(opts.contains "rblock=busy"), finishOk := !(opts.contains "finish=fail") }
       let out := runCall HB E d.p c
-      ({ d with p := out.st }, showPOut out.res out)
+      -- with a fault only the steps of the calling thread are compared (the tasks the call did not wait for go on issuing
+      -- operations); without, the whole skeleton, and the labels must be in an order the pipeline can issue
+      let order := match seqItems with
+        | none => ""
+        | some items =>
+          let withIo := fault == "-"
+          let mine := skeleton withIo out.trace
+          match skeletonOfReal withIo items with
+          | some real =>
+            if real != mine then s!" order=bad:model={",".intercalate mine}:real={",".intercalate real}"
+            else if (match ownIos with | some ios => !conforms ios | none => false) then " order=bad-io-order"
+            else " order=ok"
+          | none => " order=bad-label"
+      ({ d with p := out.st }, showPOut out.res out ++ order)
     | _, _ => (d, "bad-op")
   | ["preopen"] =>
     match reopenP d.p with
